@@ -8,7 +8,10 @@ written file (or stdout) vs `encode (build ..)` of the extracted model (piece ha
 here with hashlib - hashing itself is C01's business).
 Direct oracle: lib.bdecode_strict + field-by-field comparison with the command line; creation date inside the
 run's wall-clock window; byte-identical output with --no-creation-date on a second tree with the same content
-populated in a different creation order."""
+populated in a different creation order.
+X10: the url crate's normal form (`Url::parse` + `to_string`) is a concrete model inside a stated fragment
+(coq/Model/UrlNorm.v, theorems at the end of Properties/C05.v); tools/props/urlnorm.py compares it with the `url_norm`
+hook on >= 20 000 generated texts per quick run (called from `run`, counted in the evidence)."""
 import zlib
 import hashlib, json, os, re, shlex, shutil, tempfile, time
 import lib
@@ -24,7 +27,11 @@ MANIFEST = dict(
          "dictionaries, which example tests cannot enumerate.",
     ref="DESIGN.md section 5, C05",
     technique="Coq proof over a Gallina model + translator-generated serde schema + model/implementation correspondence run",
-    note="Assumed (Section variables, exercised by the run): url crate normalisation of --announce/--update-url and of node "
+    note="The url crate's normal form of --announce/--update-url is modelled concretely for tracker-style URLs (Model/UrlNorm.v: "
+         "ASCII, scheme://authority, special schemes except file: and non-special ones) and proved to fix every URL written in "
+         "normal form, to return only such URLs and to be idempotent; it is compared with the `url_norm` hook on every run. "
+         "Assumed (Section variables, exercised by the run): the url crate outside that fragment (IDNA / non-ASCII, file:, URLs "
+         "without `//`, relative references) and on node "
          "hosts, Url::parse acceptance of tier members, the build-time git suffix of `created by`. Hashing (C01), the walker's "
          "file selection and order (C06) and HOST:PORT splitting (C17) are inputs of the model. Trusted: Coq kernel, "
          "tools/rs2v_schema.py, extraction (ExtrOcamlBasic), runner/driver.d/metainfo.ml, Python oracle.")
@@ -752,6 +759,9 @@ def run(ctx):
         judge(ctx, results, version, base)
     finally:
         shutil.rmtree(base, ignore_errors=True)
+    # X10: the concrete model of the url crate's normal form (Model/UrlNorm.v) against the `url_norm` hook
+    from props import urlnorm
+    urlnorm.run_urlnorm(ctx)
     return finish(ctx)
 
 
@@ -850,7 +860,9 @@ def judge(ctx, results, version, base):
 def finish(ctx):
     ctx.assumptions += [
         "url crate: Url::parse(x).to_string() is the identity on the generated normal-form URLs and maps the recorded "
-        "non-normal inputs as listed in URL_NORMALISING (Section variable norm; every use is compared with the binary)",
+        "non-normal inputs as listed in URL_NORMALISING (Section variable norm; every use is compared with the binary; inside the "
+        "fragment of Model/UrlNorm.v this is a theorem about the model, c05_url_norm_fixed / c05_url_norm_rows, and the model is "
+        "compared with the url_norm hook)",
         "url crate: Url::parse refuses exactly the BAD_URLS members among the generated tier members (Section variable url_ok)",
         "url crate Host: parse+Display is the identity on the generated hosts apart from the IPv6 brackets, and maps the recorded "
         "inputs as listed in HOST_NORMALISING (Section variable host_canon); HOST:PORT splitting is C17's",
@@ -867,15 +879,27 @@ def finish(ctx):
              "order shuffled; plus a malformed stream (unparseable tier member, empty tier member, private without tracker, piece "
              "length 0 / small / uneven / >= 2^32, stdin without --name). Every valid case: 2-3 runs of the real binary (as given; "
              "with --no-creation-date; with --no-creation-date on a second tree of the same content populated in another creation "
-             "order). A case is distinct/non-trivial by (set of options given, tree kind, number of files, output mode).",
+             "order). A case is distinct/non-trivial by (set of options given, tree kind, number of files, output mode). "
+             "URL texts for the url_norm tie (tools/props/urlnorm.py): the URLs of the C05/C10/C12 checks; systematic edits of five base "
+             "URLs (letter case, default / non-default / zero-padded / empty / overflowing ports, userinfo with @ and :, empty host, "
+             "dot segments incl. %2e spellings in every position and next to Windows-drive-letter segments, // and backslash runs, "
+             "every ASCII byte in scheme / userinfo / host / port / path / query / fragment / leading / trailing position, tab, LF, CR "
+             "and space at every offset, missing //, scheme only, 11 scheme swaps); IPv4 / IPv6 host spellings from C17's generators; "
+             "seeded random trackers (C10's generator), compositions of odd components and 1-2 byte edits of them. A URL text is "
+             "distinct by (generator, outcome, first bytes, length class).",
         trusted_base=["Coq 8.16.1 kernel (coqc)", "tools/rs2v_schema.py (GenSchema, GenCreate)",
-                      "extraction with ExtrOcamlBasic + runner/driver.d/metainfo.ml (Metainfo.create_bytes, MetainfoOrder.walk_order)", "Python oracle in tools/props/c05.py + lib.bdecode_strict, hashlib"],
+                      "extraction with ExtrOcamlBasic + runner/driver.d/metainfo.ml (Metainfo.create_bytes, MetainfoOrder.walk_order)",
+                      "runner/driver.d/urlnorm.ml (UrlNorm.u_norm, is_normal_url), hook url_norm + harness/src/handlers/urlnorm.rs",
+                      "Python oracle in tools/props/c05.py + lib.bdecode_strict, hashlib"],
     )
 
 
 def replay(ctx, path):
     rec = json.load(open(path))
     case = rec["case"]
+    if "url_text_hex" in case:
+        from props import urlnorm
+        return urlnorm.replay_url(ctx, case)
     if "options" not in case:
         print(json.dumps(case, indent=1)[:4000]); return 0
     ctx.need_rust(); ctx.need_runner()
